@@ -71,6 +71,27 @@ def string_job(job):
                     syms.append(v); out.append(SymChar(v))
                 else: out.append(c)
             return out
+        if kind == 'nested':
+            # > 2-D input: groups of strings. Lossless + axis convention: (group, pattern, signal) -> (group, signal, pattern); a single pattern per group
+            # gives one vector per group - every group is kept (seed C15-r7mut1 dropped the first axis instead of the singleton second-to-last one)
+            groups = [[mk(s) for s in g] for g in spec]
+            mva = logic.mvarray(*[[list(s) for s in g] for g in groups])
+            exp3 = [[[(expected_code(eng, c) if isinstance(c, SymChar) else doc_code(c)) for c in s] for s in g] for g in groups]
+            bad = None
+            if any(e is None for g in exp3 for row in g for e in row): bad = 'the code of a character is not determined by the path taken through interpret()'
+            else:
+                want = np.array(exp3, dtype=np.uint8)
+                want = want.swapaxes(-1, -2) if want.shape[-2] > 1 else want.reshape(want.shape[0], want.shape[2])
+                if mva.shape != want.shape or not np.array_equal(mva, want): bad = f'mvarray of {len(groups)} groups gives {mva.tolist()} (shape {mva.shape}), lossless/axis convention {want.tolist()} (shape {want.shape})'
+            rep.counts['obligations'] += 1
+            mdl = eng.model()
+            conc = [[''.join(chr(mdl.eval(c.e, model_completion=True).as_long()) if isinstance(c, SymChar) else c for c in s) for s in g] for g in groups]
+            if bad: found.append(({'mode': 'nested', 'groups': conc}, bad))
+            else:
+                rep.counts['discharged'] += 1
+                ok, what = replay({'mode': 'nested', 'groups': conc}); rep.counts['concolic_runs'] += 1
+                if ok: found.append(({'mode': 'nested', 'groups': conc}, 'real str behaves differently from the symbolic character model: ' + what))
+            return 1
         strs = [mk(s) for s in spec]
         given = [list(s) for s in strs]              # what the caller hands over (lists of characters); converted twice below
         mva = logic.mvarray(*given)
@@ -107,6 +128,12 @@ def string_job(job):
     try: eng.explore(fn)
     except EngineUnknown as e: rep.error(f'string {spec}: {e}')
     except Exception as e:
+        if kind == 'nested':
+            data = {'mode': 'nested', 'groups': [[s.replace('?', 'R') for s in g] for g in spec]}
+            ok, what = replay(data)
+            if ok: rep.violation('strings/nested-exception', what, data)
+            else: rep.error(f'nested {spec}: {type(e).__name__}: {e}')
+            return rep
         ok, what = replay({'mode': 'string', 'strings': [s.replace('?', 'R') for s in spec]})
         if ok: rep.violation('strings/exception', what, {'mode': 'string', 'strings': [s.replace('?', 'R') for s in spec]})
         else: rep.error(f'string {spec}: {type(e).__name__}: {e}')
@@ -121,6 +148,17 @@ def string_job(job):
 
 def doc_code(c):
     return next((k for k, a in ALIAS.items() if c in a), 1)
+
+
+def replay_nested(data):
+    groups = data['groups']
+    try: mva = logic.mvarray(*groups)
+    except Exception as e: return True, f'mvarray raised {type(e).__name__}: {e}'
+    want = np.array([[[doc_code(c) for c in s] for s in g] for g in groups], dtype=np.uint8)
+    want = want.swapaxes(-1, -2) if want.shape[-2] > 1 else want.reshape(want.shape[0], want.shape[2])
+    if mva.shape != want.shape or not np.array_equal(mva, want):
+        return True, f'mvarray(*{groups}) = {mva.tolist()} (shape {mva.shape}); no value may be lost, (group, signal, pattern) order gives {want.tolist()} (shape {want.shape})'
+    return False, 'ok'
 
 
 def replay_string(data):
@@ -435,6 +473,7 @@ def replay(data):
         r = common.Report(); big_mvbp(r)
         return bool(r.violations), r.violations[0]['what'] if r.violations else 'ok'
     if data['mode'] == 'string': return replay_string(data)
+    if data['mode'] == 'nested': return replay_nested(data)
     if data['mode'] == 'pack': return replay_pack(data)
     if 'random_shape' in data:
         arr = np.random.default_rng(3).integers(0, 256, tuple(data['random_shape']), dtype=np.uint8)
@@ -454,6 +493,8 @@ def jobs(tier):
     base = '01X-RFPNl'
     for pos in range(len(base)): J.append(('string', (base[:pos] + '?' + base[pos + 1:],)))
     for pos in range(3): J.append(('string', ('0Hz'[:pos] + '?' + '0Hz'[pos + 1:], 'Lh^', 'v/\\')))
+    J.append(('nested', (('01XR',), ('1?00',), ('PN-F',))))             # three groups of one pattern each: (3, 1, 4) -> (3, 4)
+    J.append(('nested', (('?1', 'R0'), ('0H', 'FP'), ('--', 'Nv'))))     # three groups of two patterns: (3, 2, 2) -> (3, 2, 2) with the last two axes swapped
     for shape in [(1,), (3,), (1, 1), (2, 3), (3, 8), (2, 9), (1, 17), (2, 2, 3), (2, 1, 9)] + ([(3, 3, 17), (2, 2, 2, 5)] if tier == 'thorough' else []):
         J.append(('mvbp', shape))
     for dt in ('uint8', 'int8', 'uint16', 'int16', 'uint32', 'int32', 'uint64', 'int64'):
@@ -466,7 +507,7 @@ def jobs(tier):
 
 
 def dispatch(job):
-    return string_job(job) if job[0] == 'string' else pack_job(job)
+    return string_job(job) if job[0] in ('string', 'nested') else pack_job(job)
 
 
 def run(tier, seed):
